@@ -51,6 +51,12 @@ CHECKS = {
  "C20": ("runtime monitor: every Err from ~40 parse/lookup/stream/iterator entry points is checked against the input (offset <= len, line/column recomputed from the offset with the crate's convention, displayable, category rule) plus a latch check (3 further polls) on streams and iterators; ASan",
          "Exploration: every truncation and every 1-byte corruption of 600 (quick) multi-line documents, 40k mutated documents (half multi-line), token sequences; ~12M judged results in quick.",
          "Trusted: harness position recomputation. Position-less errors (line 0) are tolerated only for the TypeUnmatched category (serde creates them after the deserializer returned, as in serde_json); consequence: a change that merely drops a position is not detected, a wrong position is."),
+ "C15": ("history checker: every public mutation operation (55 kinds: Value/Array/Object/Entry/Index/IndexMut/pointer_mut/take/clone/IntoIter/drain/...) applied in lock-step to real Values and to a Vec/BTreeMap model over 4 registers; results, all registers and the structural-invariant hook (verif_check) compared after every step; native release, native debug, ASan",
+         "Exploration: all sequences of length <= 2 (quick) / <= 3 (thorough) over 74 concrete operations (exhaustive, aliasing between two registers) and 20k (quick) random 200-step histories from 7 kinds of starting values (parsed root, subtree by clone/take, owned, to_value, json!, embedded).",
+         "Trusted: the model (std Vec/BTreeMap). Starting objects are duplicate-free; documented panics (IndexMut out of range / wrong kind, insert/remove/split_off/drain out of range) count as 'fails' and must leave every register unchanged."),
+ "C16": ("runtime monitors: content oracle for every surviving handle + arena ledger hook (live arenas == arenas referenced by live values, no double unregistration) + structural check + counting allocator, over all drop permutations of sharing scenarios and random parse/clone/take/insert/mutate/thread/drop histories; ASan/LSan; TSan for the threaded stress",
+         "Exploration: every drop order of 32 templates (<= 6 handles, 720 orders; whole-input, struct-embedded, Vec, stream, cross-document insertion, mutated clones, rawnumber), 20k (quick) random histories, 8-thread barrier stress.",
+         "Trusted: hooks H2/H3 (sonic-rs feature verif_hooks), ASan/LSan/TSan runtimes (TSan built with -Zbuild-std)."),
  "C02": ("differential runtime monitor: independent RFC 8259 recogniser as accept/reject oracle over enumerated token sequences and mutated documents; ASan build",
          "Exploration: every listed entry point x carrier is executed on all token sequences up to the bound and on seeded generated/mutated documents; an independent recogniser decides what must be accepted. Held on the cases observed, not a proof over all byte strings.",
          "Trusted: the harness recogniser (cross-checked against serde_json), rustc, ASan runtime. Depth is capped at 64 so the permitted nesting-limit rejection never explains a verdict."),
